@@ -145,4 +145,6 @@ def run(res, facts, tier):
     r3_html_table(res, facts)
     from . import c08_indent
     c08_indent.run(res, facts, tier)
-    res.assume('C08: the indentation of the HTML and legacy FormatterToXML serializers, META insertion and tree equality of the outputs are behavioural and not decided')
+    from . import c08_html
+    c08_html.run(res, facts, tier)
+    res.assume('C08: which HTML elements are block / inline is taken from the event, not from content models; script / style / pre content, the META tag, URL escaping and tree equality of the outputs are behavioural and not decided')
